@@ -294,7 +294,12 @@ fn run_compose(case: u64, rng: &mut Rng, ev: &mut Ev) {
         return;
     }
     let mut hp = f.clone();
-    if let Err(p) = lib(case, "compose::<true,false>", || hp.compose::<true, false>(&g)) {
+    // the VERBOSE const parameter only adds a progress bar: one case in eight runs the pruned side with it
+    let verbose = case % 8 == 3;
+    if verbose {
+        ev.inc("pruned_compositions_with_verbose_flag");
+    }
+    if let Err(p) = lib(case, "compose::<true,_>", || if verbose { hp.compose::<true, true>(&g) } else { hp.compose::<true, false>(&g) }) {
         ev.violation(case, "c03:compose:panic", "", json!({"case": desc, "panic": p}));
         return;
     }
